@@ -79,6 +79,7 @@ def case_pointwise(T, cfg):
     obj, D = _rdms(T, cfg)
     which = cfg['which']
     key = f'C17:{which}'
+    nan_at = {tuple(x) for x in cfg.get('nan_at', [])}
     if which == 'sqrt':
         res = trm.sqrt_transform(obj)
         want = [[sqrt(_max0(x)) for x in row] for row in D]
@@ -93,6 +94,8 @@ def case_pointwise(T, cfg):
         want = [[x * x + 1 for x in row] for row in D]
         meas = 'transformed ' + cfg.get('measure', 'squared euclidean')
     _meta(T, res, obj, meas, key)
+    # missing dissimilarities stay missing under every pointwise transform
+    want = [[np.nan if (r, k) in nan_at else x for k, x in enumerate(row)] for r, row in enumerate(want)]
     T.eq('values', res.dissimilarities, np.array(want, dtype=object if T.symbolic else float), key=key)
 
 
@@ -259,6 +262,8 @@ def configs(tier):
             out.append(dict(case='pointwise', which=which, n_cond=n, n_rdm=2, container='array' if n == 4 else 'list'))
         out.append(dict(case='pointwise', which=which, n_cond=3, n_rdm=1, measure='squared mahalanobis'))
         out.append(dict(case='pointwise', which=which, n_cond=3, n_rdm=1, measure='correlation'))
+        out.append(dict(case='pointwise', which=which, n_cond=3, n_rdm=2, nan_at=[(0, 1), (1, 1)]))
+        out.append(dict(case='pointwise', which=which, n_cond=4, n_rdm=1, nan_at=[(0, 0), (0, 4)], container='array'))
     out.append(dict(case='minmax', n_cond=3, n_rdm=1))
     out.append(dict(case='minmax', n_cond=3, n_rdm=2))
     if not quick:
